@@ -14,6 +14,7 @@ import (
 	"errors"
 	"flag"
 	"fmt"
+	"io"
 	"math/rand"
 	"os"
 	"sort"
@@ -31,10 +32,13 @@ import (
 type item [3]interface{} // type, n, x
 
 type accT struct {
-	Num   uint32 `json:"num"`
-	Flags string `json:"flags"`
-	Perm  string `json:"perm"`
-	Items []item `json:"items"`
+	Num     uint32 `json:"num"`
+	Flags   string `json:"flags"`
+	Perm    string `json:"perm"`
+	UIDNext uint32 `json:"uidnext"`
+	UIDVal  uint32 `json:"uidval"`
+	List    string `json:"list"`
+	Items   []item `json:"items"`
 }
 
 type compT struct {
@@ -60,6 +64,8 @@ type obsT struct {
 	Comp    []compT `json:"comp"`
 	Pend    []int   `json:"pend"`
 	Uni     []item  `json:"uni"`
+	// no NOOP round trip is possible after this step: an IDLE occupies the connection
+	NoBarrier bool `json:"nobarrier"`
 }
 
 type event struct {
@@ -121,6 +127,26 @@ type world struct {
 	uniMu sync.Mutex
 	uni   []item
 	dead  bool
+	idles map[int]*idleT // per command id
+}
+
+// idleT is the harness side of one IDLE command
+type idleT struct {
+	running chan struct{} // closed when Client.Idle has returned without error
+	stop    chan struct{} // closed by the IdleDone action
+	once    sync.Once
+}
+
+func (id *idleT) stopNow() { id.once.Do(func() { close(id.stop) }) }
+
+// capability lists of the model (c1 = c0 + XTEST); both keep what the client's behaviour depends on
+const capsC0 = "IMAP4rev1 LITERAL+ MOVE UIDPLUS"
+
+func capsText(name string) string {
+	if name == "c1" {
+		return capsC0 + " XTEST"
+	}
+	return capsC0
 }
 
 func statusOf(err error) string {
@@ -139,9 +165,9 @@ func statusOf(err error) string {
 	return "ERR"
 }
 
-func newWorld() (*world, error) {
+func newWorld(greet string) (*world, error) {
 	c, s := vh.NewConnPair()
-	w := &world{srv: s, br: bufio.NewReader(s)}
+	w := &world{srv: s, br: bufio.NewReader(s), idles: map[int]*idleT{}}
 	opts := &imapclient.Options{UnilateralDataHandler: &imapclient.UnilateralDataHandler{
 		Expunge: func(seq uint32) { w.addUni(item{"expunge", float64(seq), "none"}) },
 		Mailbox: func(d *imapclient.UnilateralDataMailbox) {
@@ -155,6 +181,7 @@ func newWorld() (*world, error) {
 				w.addUni(item{"permflags", float64(0), flagName(d.PermanentFlags)})
 			}
 		},
+		Metadata: func(mailbox string, entries []string) { w.addUni(item{"meta", float64(0), mailbox}) },
 		Fetch: func(msg *imapclient.FetchMessageData) {
 			buf, err := msg.Collect()
 			if err != nil {
@@ -164,7 +191,10 @@ func newWorld() (*world, error) {
 			w.addUni(item{"fetch", float64(buf.SeqNum), flagName(buf.Flags)})
 		},
 	}}
-	s.Write([]byte("* OK [CAPABILITY IMAP4rev1] ready\r\n"))
+	if greet != "OK" && greet != "PREAUTH" {
+		return nil, fmt.Errorf("harness: unknown greeting %q", greet)
+	}
+	s.Write([]byte("* " + greet + " [CAPABILITY " + capsC0 + "] ready\r\n"))
 	w.cl = imapclient.New(c, opts)
 	if err := w.cl.WaitGreeting(); err != nil {
 		return nil, err
@@ -225,7 +255,11 @@ func (w *world) submit(kind, arg string) error {
 			d, err := cmd.Wait()
 			acc := accT{}
 			if d != nil {
-				acc = accT{Num: d.NumMessages, Flags: flagName(d.Flags), Perm: flagName(d.PermanentFlags)}
+				acc = accT{Num: d.NumMessages, Flags: flagName(d.Flags), Perm: flagName(d.PermanentFlags),
+					UIDNext: uint32(d.UIDNext), UIDVal: d.UIDValidity, List: "none"}
+				if d.List != nil {
+					acc.List = d.List.Mailbox
+				}
 			}
 			fin(statusOf(err), acc)
 		}()
@@ -273,7 +307,11 @@ func (w *world) submit(kind, arg string) error {
 		}()
 	case "FETCH":
 		var set imap.SeqSet
-		set.AddRange(1, 0)
+		if arg == "one" {
+			set.AddNum(1)
+		} else {
+			set.AddRange(1, 0)
+		}
 		cmd := w.cl.Fetch(set, &imap.FetchOptions{Flags: true})
 		go func() {
 			l, err := cmd.Collect()
@@ -293,16 +331,247 @@ func (w *world) submit(kind, arg string) error {
 			}
 			fin(statusOf(err), acc)
 		}()
+	case "CLOSE":
+		cmd := w.cl.UnselectAndExpunge()
+		go func() { fin(statusOf(cmd.Wait()), accT{}) }()
+	case "UNAUTH":
+		cmd := w.cl.Unauthenticate()
+		go func() { fin(statusOf(cmd.Wait()), accT{}) }()
+	case "CREATE":
+		cmd := w.cl.Create("A", nil)
+		go func() { fin(statusOf(cmd.Wait()), accT{}) }()
+	case "STORE":
+		var set imap.SeqSet
+		set.AddRange(1, 0)
+		cmd := w.cl.Store(set, &imap.StoreFlags{Op: imap.StoreFlagsAdd, Flags: []imap.Flag{imap.FlagSeen}}, nil)
+		go func() {
+			l, err := cmd.Collect()
+			acc := accT{}
+			for _, m := range l {
+				acc.Items = append(acc.Items, item{"fetch", float64(m.SeqNum), flagName(m.Flags)})
+			}
+			fin(statusOf(err), acc)
+		}()
+	case "UIDFETCH":
+		var set imap.UIDSet
+		set.AddRange(1, 0)
+		cmd := w.cl.Fetch(set, &imap.FetchOptions{Flags: true, UID: true})
+		go func() {
+			l, err := cmd.Collect()
+			acc := accT{}
+			for _, m := range l {
+				acc.Items = append(acc.Items, item{"fetch", float64(m.SeqNum), flagName(m.Flags)})
+			}
+			fin(statusOf(err), acc)
+		}()
+	case "UIDEXPUNGE":
+		var set imap.UIDSet
+		set.AddRange(1, 0)
+		cmd := w.cl.UIDExpunge(set)
+		go func() {
+			l, err := cmd.Collect()
+			acc := accT{}
+			for _, n := range l {
+				acc.Items = append(acc.Items, item{"expunge", float64(n), "none"})
+			}
+			fin(statusOf(err), acc)
+		}()
+	case "LISTSTATUS":
+		cmd := w.cl.List("", "*", &imap.ListOptions{ReturnStatus: &imap.StatusOptions{NumMessages: true}})
+		go func() {
+			l, err := cmd.Collect()
+			acc := accT{}
+			for _, d := range l {
+				if d.Status != nil && d.Status.NumMessages != nil {
+					acc.Items = append(acc.Items, item{"liststatus", float64(*d.Status.NumMessages), d.Mailbox})
+				} else {
+					acc.Items = append(acc.Items, item{"list", float64(0), d.Mailbox})
+				}
+			}
+			fin(statusOf(err), acc)
+		}()
+	case "SORT":
+		cmd := w.cl.Sort(&imapclient.SortOptions{SearchCriteria: &imap.SearchCriteria{}, SortCriteria: []imapclient.SortCriterion{{Key: imapclient.SortKeyDate}}})
+		go func() {
+			l, err := cmd.Wait()
+			acc := accT{}
+			for _, n := range l {
+				acc.Items = append(acc.Items, item{"sort", float64(n), "none"})
+			}
+			fin(statusOf(err), acc)
+		}()
+	case "THREAD":
+		cmd := w.cl.Thread(&imapclient.ThreadOptions{Algorithm: imap.ThreadReferences, SearchCriteria: &imap.SearchCriteria{}})
+		go func() {
+			l, err := cmd.Wait()
+			acc := accT{}
+			for _, t := range l {
+				for _, n := range t.Chain {
+					acc.Items = append(acc.Items, item{"thread", float64(n), "none"})
+				}
+			}
+			fin(statusOf(err), acc)
+		}()
+	case "CAPABILITY":
+		cmd := w.cl.Capability()
+		go func() {
+			caps, err := cmd.Wait()
+			acc := accT{}
+			if caps != nil {
+				name := "c0"
+				if caps.Has("XTEST") {
+					name = "c1"
+				}
+				acc.Items = append(acc.Items, item{"caps", float64(0), name})
+			}
+			fin(statusOf(err), acc)
+		}()
+	case "ENABLE":
+		cmd := w.cl.Enable(imap.CapUTF8Accept)
+		go func() {
+			d, err := cmd.Wait()
+			acc := accT{}
+			if d != nil && d.Caps.Has(imap.CapUTF8Accept) {
+				acc.Items = append(acc.Items, item{"enabled", float64(0), "none"})
+			}
+			fin(statusOf(err), acc)
+		}()
+	case "NAMESPACE":
+		cmd := w.cl.Namespace()
+		go func() {
+			d, err := cmd.Wait()
+			acc := accT{}
+			if d != nil && len(d.Personal) > 0 {
+				name := "?" + d.Personal[0].Prefix
+				switch d.Personal[0].Prefix {
+				case "":
+					name = "p0"
+				case "INBOX.":
+					name = "p1"
+				}
+				acc.Items = append(acc.Items, item{"ns", float64(0), name})
+			}
+			fin(statusOf(err), acc)
+		}()
+	case "GETQUOTA":
+		cmd := w.cl.GetQuota(arg)
+		go func() {
+			d, err := cmd.Wait()
+			acc := accT{}
+			if d != nil {
+				acc.Items = append(acc.Items, item{"quota", float64(d.Resources[imap.QuotaResourceStorage].Usage), d.Root})
+			}
+			fin(statusOf(err), acc)
+		}()
+	case "GETQUOTAROOT":
+		cmd := w.cl.GetQuotaRoot(arg)
+		go func() {
+			l, err := cmd.Wait()
+			acc := accT{}
+			for _, d := range l {
+				acc.Items = append(acc.Items, item{"quota", float64(d.Resources[imap.QuotaResourceStorage].Usage), d.Root})
+			}
+			fin(statusOf(err), acc)
+		}()
+	case "GETMETADATA":
+		cmd := w.cl.GetMetadata(arg, []string{"/private/comment"}, nil)
+		go func() {
+			d, err := cmd.Wait()
+			acc := accT{}
+			if d != nil {
+				if v := d.Entries["/private/comment"]; v != nil {
+					n := 0
+					fmt.Sscanf(string(*v), "v%d", &n)
+					acc.Items = append(acc.Items, item{"meta", float64(n), d.Mailbox})
+				}
+			}
+			fin(statusOf(err), acc)
+		}()
+	case "COPY":
+		var set imap.SeqSet
+		set.AddRange(1, 2)
+		cmd := w.cl.Copy(set, "B")
+		go func() {
+			d, err := cmd.Wait()
+			acc := accT{}
+			if d != nil && d.UIDValidity != 0 {
+				acc.Items = append(acc.Items, item{"copyuid", float64(d.UIDValidity), "none"})
+			}
+			fin(statusOf(err), acc)
+		}()
+	case "MOVE":
+		var set imap.SeqSet
+		set.AddRange(1, 2)
+		cmd := w.cl.Move(set, "B")
+		go func() {
+			d, err := cmd.Wait()
+			acc := accT{}
+			if d != nil && d.UIDValidity != 0 {
+				acc.Items = append(acc.Items, item{"copyuid", float64(d.UIDValidity), "none"})
+			}
+			fin(statusOf(err), acc)
+		}()
+	case "APPEND":
+		cmd := w.cl.Append("A", 5, nil)
+		go func() {
+			cmd.Write([]byte("hello"))
+			cmd.Close()
+			d, err := cmd.Wait()
+			acc := accT{}
+			if d != nil && d.UID != 0 {
+				acc.Items = append(acc.Items, item{"appenduid", float64(d.UIDValidity), "none"})
+			}
+			fin(statusOf(err), acc)
+		}()
+	case "IDLE":
+		id := &idleT{running: make(chan struct{}), stop: make(chan struct{})}
+		w.idles[len(w.res)+1] = id
+		go func() {
+			idle, err := w.cl.Idle() // returns once the server has sent the continuation request (or refused)
+			if err != nil {
+				fin(statusOf(err), accT{})
+				return
+			}
+			close(id.running)
+			<-id.stop
+			if err := idle.Close(); err != nil {
+				fin(statusOf(err), accT{})
+				return
+			}
+			fin(statusOf(idle.Wait()), accT{})
+		}()
 	default:
 		return fmt.Errorf("unknown kind %s", kind)
 	}
-	tag, _, err := w.readCmd()
+	tag, text, err := w.readCmd()
+	if err == nil && kind == "APPEND" {
+		// the message follows as a non-synchronising literal (LITERAL+ is advertised)
+		err = w.readAppendLiteral(text)
+	}
 	if err != nil {
 		return err
 	}
 	w.tags = append(w.tags, tag)
 	w.res = append(w.res, r)
 	w.kinds = append(w.kinds, kind)
+	return nil
+}
+
+func (w *world) readAppendLiteral(text string) error {
+	i := strings.LastIndexByte(text, '{')
+	var n int
+	if i < 0 || !strings.HasSuffix(text, "+}") {
+		return fmt.Errorf("APPEND without non-synchronising literal: %q", text)
+	}
+	fmt.Sscanf(text[i:], "{%d+}", &n)
+	buf := make([]byte, n+2)
+	w.srv.SetReadDeadline(time.Now().Add(3 * time.Second))
+	if _, err := io.ReadFull(w.br, buf); err != nil {
+		return fmt.Errorf("reading the APPEND literal: %v", err)
+	}
+	if string(buf[n:]) != "\r\n" {
+		return fmt.Errorf("APPEND literal not followed by CRLF: %q", buf)
+	}
 	return nil
 }
 
@@ -349,7 +618,64 @@ func (w *world) step(ev *event) error {
 	case "PermFlags":
 		w.write("* OK [PERMANENTFLAGS " + flagText(ev.S1) + "] ok")
 	case "Fetch":
-		w.write(fmt.Sprintf("* %d FETCH (FLAGS %s)", ev.N1, flagText(ev.S1)))
+		if ev.N2 != 0 {
+			w.write(fmt.Sprintf("* %d FETCH (UID %d FLAGS %s)", ev.N1, ev.N2, flagText(ev.S1)))
+		} else {
+			w.write(fmt.Sprintf("* %d FETCH (FLAGS %s)", ev.N1, flagText(ev.S1)))
+		}
+	case "Sort":
+		w.write(fmt.Sprintf("* SORT %d", ev.N1))
+	case "Thread":
+		w.write(fmt.Sprintf("* THREAD (%d)", ev.N1))
+	case "MoveUid":
+		w.write(fmt.Sprintf("* OK [COPYUID %d 1:2 5:6] moved", ev.N1))
+	case "UidNext":
+		w.write(fmt.Sprintf("* OK [UIDNEXT %d] next", ev.N1))
+	case "UidValidity":
+		w.write(fmt.Sprintf("* OK [UIDVALIDITY %d] validity", ev.N1))
+	case "Quota":
+		w.write(fmt.Sprintf("* QUOTA %s (STORAGE %d 100)", ev.S1, ev.N1))
+	case "QuotaRoot":
+		w.write(fmt.Sprintf("* QUOTAROOT %s %s", ev.S1, ev.S2))
+	case "Metadata":
+		w.write(fmt.Sprintf("* METADATA %s (/private/comment \"v%d\")", ev.S1, ev.N1))
+	case "MetaChanged":
+		w.write(fmt.Sprintf("* METADATA %s /private/comment", ev.S1))
+	case "Caps":
+		w.write("* CAPABILITY " + capsText(ev.S1))
+	case "Namespace":
+		if ev.S1 == "p1" {
+			w.write(`* NAMESPACE (("INBOX." ".")) NIL NIL`)
+		} else {
+			w.write(`* NAMESPACE (("" "/")) NIL NIL`)
+		}
+	case "Enabled":
+		w.write("* ENABLED UTF8=ACCEPT")
+	case "Cont":
+		id := w.idles[ev.N1]
+		if id == nil {
+			return fmt.Errorf("harness: command %d is not an IDLE", ev.N1)
+		}
+		w.write("+ idling")
+		select {
+		case <-id.running:
+		case <-time.After(3 * time.Second):
+			return fmt.Errorf("Client.Idle did not return within 3 s after the continuation request")
+		}
+	case "IdleDone":
+		id := w.idles[ev.N1]
+		if id == nil {
+			return fmt.Errorf("harness: command %d is not an IDLE", ev.N1)
+		}
+		id.stopNow()
+		w.srv.SetReadDeadline(time.Now().Add(3 * time.Second))
+		line, err := w.br.ReadString('\n')
+		if err != nil {
+			return fmt.Errorf("reading DONE: %v", err)
+		}
+		if strings.TrimRight(line, "\r\n") != "DONE" {
+			return fmt.Errorf("expected DONE, client sent %q", line)
+		}
 	case "Status":
 		w.write(fmt.Sprintf("* STATUS %s (MESSAGES %d)", ev.S1, ev.N1))
 	case "List":
@@ -364,8 +690,16 @@ func (w *world) step(ev *event) error {
 		text := "done"
 		if ev.S1 == "OK" {
 			switch w.kinds[id-1] {
-			case "LOGIN":
-				text = "[CAPABILITY IMAP4rev1] logged in"
+			case "LOGIN", "UNAUTH":
+				text = "[CAPABILITY " + capsC0 + "] done"
+			case "COPY":
+				if ev.N2 != 0 {
+					text = fmt.Sprintf("[COPYUID %d 1:2 5:6] copied", ev.N2)
+				}
+			case "APPEND":
+				if ev.N2 != 0 {
+					text = fmt.Sprintf("[APPENDUID %d 3] appended", ev.N2)
+				}
 			case "LOGOUT":
 				w.write("* BYE logging out")
 			case "SELECT":
@@ -377,6 +711,10 @@ func (w *world) step(ev *event) error {
 		w.write("* BYE server shutting down")
 		w.srv.Close()
 		w.dead = true
+		// a caller whose IDLE is running learns about the loss of the connection when it ends the IDLE
+		for _, id := range w.idles {
+			id.stopNow()
+		}
 		// Client.Close returns once the reader goroutine has finished its teardown
 		// (there is no other way to wait for it); the connection is gone anyway.
 		if !vh.Within(3*time.Second, func() { w.cl.Close() }) {
@@ -466,6 +804,13 @@ func accEq(kind, st string, got, exp accT) (bool, string) {
 		if got.Num != exp.Num || got.Flags != exp.Flags || got.Perm != exp.Perm {
 			return false, fmt.Sprintf("select data num=%d flags=%s perm=%s, transcript implies num=%d flags=%s perm=%s", got.Num, got.Flags, got.Perm, exp.Num, exp.Flags, exp.Perm)
 		}
+		if exp.List != "" && (got.UIDNext != exp.UIDNext || got.UIDVal != exp.UIDVal || got.List != exp.List) {
+			return false, fmt.Sprintf("select data uidnext=%d uidvalidity=%d list=%s, transcript implies uidnext=%d uidvalidity=%d list=%s", got.UIDNext, got.UIDVal, got.List, exp.UIDNext, exp.UIDVal, exp.List)
+		}
+		return true, ""
+	}
+	// these hand out their data only with a successful completion
+	if st != "OK" && (kind == "GETQUOTA" || kind == "GETQUOTAROOT" || kind == "MOVE") {
 		return true, ""
 	}
 	if !itemsEq(got.Items, exp.Items) {
@@ -475,7 +820,10 @@ func accEq(kind, st string, got, exp accT) (bool, string) {
 }
 
 func replay(beh []event) (*verdict, int, bool, error) {
-	w, err := newWorld()
+	if len(beh) == 0 || beh[0].Act != "Greet" {
+		return nil, 0, false, fmt.Errorf("harness: a behaviour starts with the greeting")
+	}
+	w, err := newWorld(beh[0].S1)
 	if err != nil {
 		return nil, 0, false, err
 	}
@@ -484,10 +832,14 @@ func replay(beh []event) (*verdict, int, bool, error) {
 	nontrivial := false
 	for i := range beh {
 		ev := &beh[i]
-		if err := w.step(ev); err != nil {
-			return &verdict{"step-failed/" + ev.Act, err.Error(), i}, i + 1, nontrivial, nil
+		if ev.Act != "Greet" {
+			if err := w.step(ev); err != nil {
+				return &verdict{"step-failed/" + ev.Act, err.Error(), i}, i + 1, nontrivial, nil
+			}
 		}
-		if !w.dead {
+		// while an IDLE occupies the connection no command can be sent: what the step implies is then
+		// observable without a round trip (the handler is called after the state has been updated)
+		if !w.dead && !ev.Exp.NoBarrier {
 			if err := w.barrier(); err != nil {
 				return &verdict{"barrier-failed/" + ev.Act, err.Error(), i}, i + 1, nontrivial, nil
 			}
